@@ -14,12 +14,16 @@ typedef Value<char> V;
 #ifndef PAT
 #define PAT 0
 #endif
+#ifndef MKIND
+#define MKIND 0   /* other member: 0 symbolic 64-bit number, 1 concrete one-unit string 'p'+i (keeps a mis-grouped result's shape concrete, so a key-position defect is decided instead of timing out) */
+#endif
 #ifndef KIND
 #define KIND 0     /* 0: one-unit string keys, 1: boolean keys, 2: null / string mix, 3: one-digit unsigned keys */
 #endif
 
 // No string -> number coercion is part of grouping; the scanner (and the big-integer kernels behind it) is cut out and asserted unreachable.
 extern "C" unsigned char stub_no_strtonum(QNumber64 *, const char *, unsigned *, unsigned) { vf_assert(false, 99); return 0; }
+extern "C" void stub_no_real(void *, unsigned long long, unsigned long long) { vf_assert(false, 98); }   // no real-number formatting either
 struct KeyVal { unsigned kind; char s; bool b; unsigned d; };     // model of a grouping-key value
 static void set_key(V &o, const KeyVal &k) {
 #if KIND == 0
@@ -66,8 +70,14 @@ extern "C" void h_group() {
     V &arr = *new (&raw[0]) V;
     for (unsigned i = 0; i < NOBJ; i++) {
         V o;
+#if MKIND == 0
         if ((ORD >> i) & 1) { o["m"] = SizeT64(m[i]); set_key(o, k[i]); }
         else                { set_key(o, k[i]); o["m"] = SizeT64(m[i]); }
+#else
+        char ms = char('p' + i);
+        if ((ORD >> i) & 1) { o["m"] = V{&ms, SizeT{1}}; set_key(o, k[i]); }
+        else                { set_key(o, k[i]); o["m"] = V{&ms, SizeT{1}}; }
+#endif
         arr += static_cast<V &&>(o);
     }
     vf_assert(arr.IsArray() && arr.Size() == NOBJ, 1);
@@ -92,13 +102,21 @@ extern "C" void h_group() {
     const V *e = grp->GetValue(SizeT(pos));
     vf_assert(e != nullptr && e->IsObject() && e->Size() == 1, 6);   // grouping key removed, nothing else
     const V *mv = (e != nullptr) ? e->GetValue("m", SizeT{1}) : nullptr;
+#if MKIND == 0
     vf_assert(mv != nullptr && mv->IsUInt64() && mv->GetUInt64() == m[i], 7);   // other members unchanged
+#else
+    vf_assert(mv != nullptr && mv->IsString() && mv->Length() == 1 && mv->StringStorage()[0] == char('p' + i), 7);
+#endif
     const String<char> *gk = g.GetKey(SizeT(gid[i]));                // group names in order of first appearance
     vf_assert(gk != nullptr && gk->IsEqual(&txt[i][0], SizeT(tl[i])), 8);
     // the source array is unchanged
     const V *src = arr.GetValue(SizeT(i));
     vf_assert(src != nullptr && src->IsObject() && src->Size() == 2, 9);
     const V *sm = src->GetValue("m", SizeT{1});
+#if MKIND == 0
     vf_assert(sm != nullptr && sm->GetUInt64() == m[i], 10);
+#else
+    vf_assert(sm != nullptr && sm->IsString() && sm->Length() == 1, 10);
+#endif
     vf_witness();
 }
